@@ -6,12 +6,30 @@ COMMON_ASSUME = [
 NOT_APPLICABLE = {}
 PROPS = {
     "C11": {
-        "claim": "TODO", "note": "TODO",
+        "claim": "Coq theorems (closed, no axioms) over executable models of the printers' escaping (char::escape_debug with the NUL repair, "
+                 "ident_string, the two-branch blob printer, pp_num_str) and of the lexer's string/number sub-lexers (logos' longest-match "
+                 "rule made explicit): for EVERY list of Unicode scalars and every choice of which scalars are written literally, the "
+                 "printed text literal lexes back to exactly its UTF-8 bytes; for EVERY byte string the printed blob lexes back to it; "
+                 "digit grouping is undone for digit strings of any length. Both models are compared with the implementation: printer "
+                 "output for all scalars below U+0800 (thorough: all 1 112 064), every scalar followed by a hex digit, random and hand-made "
+                 "sources with every escape form (valid and malformed), blobs, numbers; and a direct predicate prints generated values "
+                 "(Display and Debug), parses them and annotates them with their own types.",
+        "note": "The value-level printer/parser (pp_value vs grammar.lalrpop: records, variants, tuple shorthand, opt parenthesisation, "
+                "abbreviation threshold, annotations, floats, principals) is NOT modelled: that part is the direct predicate only. Whether a "
+                "scalar is printed literally comes from the standard library's Unicode tables (oracle flag per scalar; the theorem holds "
+                "for every choice). Float formatting/parsing is Rust std.",
         "props_file": "props/C11.v",
         "shards": (4, 16),
-        "rule": "TODO",
+        "rule": "cases: blocks of 64 consecutive scalars printed and lexed (quick: all below U+0800; thorough: all scalars), each scalar "
+                "followed by 'a'; random texts from a biased alphabet (NUL, controls, DEL, quotes, backslash, combining marks, bidi, "
+                "surrogate-adjacent, non-BMP) as values and as labels; hand-made sources mixing all escape forms incl. malformed ones, "
+                "with and without closing quote, as text and as blob; random blobs (ASCII-only and arbitrary); digit strings up to 40 "
+                "digits with canonical and odd underscore placement; 600 (x20 thorough) generated values of depth <= 3 with named/"
+                "numeric/keyword/odd labels, vectors around the abbreviation threshold, all number types, finite floats, references. "
+                "Non-trivial = text of >= 2 scalars, every block, every hand-made source, every value.",
         "assumptions": COMMON_ASSUME,
-        "trusted_base": [],
+        "trusted_base": ["modelled, not verified: logos-generated DFAs (the sub-lexers are modelled by their regexes), LALRPOP tables, "
+                         "std::char::escape_debug's tables (oracle), f32/f64 Display and FromStr, the pretty crate's layout (whitespace only)"],
     },
     "C10": {
         "claim": 'Coq theorems (closed, no axioms): annotate_type (both modes) returns every inhabitant of t unchanged; M^-1 (M v) = v at every type; coercion at the same type never fails. The annotate model is a transcription of IDLValue::annotate_type and is compared with it on inhabitants, near misses (wrong number width, missing field, unknown tag, wrong reference kind) and mutated types in both modes; a direct predicate checks annotate -> typed encode -> decode at t and with no expected type returns the value.',
